@@ -443,8 +443,8 @@ fn bestmove(args: &[String]) -> i32 {
             rep.evals += 1;
             let ok = match r.1 { Some(m) => legal.contains(&m.to_algebraic()), None => legal.is_empty() };
             if !ok {
-                rep.violation = Some(format!("{{\"input\": {{\"fen\": {}, \"node_limit\": {:?}, \"depth\": {}}}, \"real\": {{\"bestmove\": {}}}, \"expected\": \"a legal move iff one exists\"}}",
-                    jstr(&fen), lim, depth, jstr(&r.1.map(|m| m.to_algebraic()).unwrap_or("0000".into()))));
+                rep.violation = Some(format!("{{\"input\": {{\"fen\": {}, \"node_limit\": {}, \"depth\": {}}}, \"real\": {{\"bestmove\": {}}}, \"expected\": \"a legal move iff one exists\"}}",
+                    jstr(&fen), lim.map(|x| x.to_string()).unwrap_or("null".into()), depth, jstr(&r.1.map(|m| m.to_algebraic()).unwrap_or("0000".into()))));
                 return rep.finish();
             }
         }
@@ -637,10 +637,11 @@ fn game_history(args: &[String]) -> i32 {
     let mut fl = Flounder::new();
     for (start, ms) in random_games(seed, games, plies) {
         let fen = to_fen(&start);
-        for n in [ms.len(), ms.len() / 2] {
+        for (round, n) in [ms.len(), ms.len() / 2, ms.len(), ms.len() / 3].into_iter().enumerate() {
             let list: Vec<String> = ms[..n].iter().map(|m| m.uci()).collect();
-            // an unrelated earlier command must not leak into the history
-            fl.verif_handle_command("position startpos moves g1f3 g8f6 f3g1 f6g8");
+            // an unrelated earlier command must not leak into the history (rounds 0, 1); rounds 2, 3: the same game again and
+            // then a take-back, with nothing in between
+            if round < 2 { fl.verif_handle_command("position startpos moves g1f3 g8f6 f3g1 f6g8"); }
             let cmd = if list.is_empty() { format!("position fen {}", fen) } else { format!("position fen {} moves {}", fen, list.join(" ")) };
             fl.verif_handle_command(&cmd);
             rep.evals += 1;
@@ -701,6 +702,20 @@ fn position_cmd(args: &[String]) -> i32 {
             rep.violation = Some(format!("{{\"input\": {{\"cmd\": {}}}, \"real\": {}, \"expected\": {}}}", jstr(&cmd), jstr(&got), jstr(&ref_pos_string(&p))));
             return rep.finish();
         }
+        // any sequence of earlier position commands: a take-back (strict prefix of the list just played) and the bare start
+        for n in [ms.len() / 2, 0usize] {
+            if n >= ms.len() { continue; }
+            let cmd2 = if n == 0 { format!("position fen {}", fen) } else { format!("position fen {} moves {}", fen, list[..n].join(" ")) };
+            fl.verif_handle_command(&cmd2);
+            rep.evals += 1;
+            let mut q = start.clone();
+            for m in &ms[..n] { q = apply(&q, *m); }
+            let got2 = eng_pos_string(fl.verif_board());
+            if got2 != ref_pos_string(&q) {
+                rep.violation = Some(format!("{{\"input\": {{\"cmds\": [{}, {}]}}, \"real\": {}, \"expected\": {}}}", jstr(&cmd), jstr(&cmd2), jstr(&got2), jstr(&ref_pos_string(&q))));
+                return rep.finish();
+            }
+        }
         rep.distinct += 1;
         if rep.distinct % 25 == 1 { rep.sample(jstr(&cmd)); }
     }
@@ -724,6 +739,13 @@ fn position_cmd(args: &[String]) -> i32 {
         let got = eng_pos_string(fl.verif_board());
         if got != ref_pos_string(&p) {
             rep.violation = Some(format!("{{\"input\": {{\"cmd\": {}}}, \"real\": {}, \"expected\": {}}}", jstr(&cmd), jstr(&got), jstr(&ref_pos_string(&p))));
+            return rep.finish();
+        }
+        fl.verif_handle_command("position startpos");
+        rep.evals += 1;
+        let got = eng_pos_string(fl.verif_board());
+        if got != ref_pos_string(&sp) {
+            rep.violation = Some(format!("{{\"input\": {{\"cmds\": [{}, \"position startpos\"]}}, \"real\": {}, \"expected\": {}}}", jstr(&cmd), jstr(&got), jstr(&ref_pos_string(&sp))));
             return rep.finish();
         }
     }
